@@ -659,7 +659,9 @@ host_read_d	(SF_PRIVATE *psf, double *ptr, sf_count_t len)
 		return readcount ;
 		} ;
 
+	/* Swap what was read, in sensible pieces, and report what was read. */
 	bufferlen = SENSIBLE_LEN ;
+	len = readcount ;
 	while (len > 0)
 	{	if (len < bufferlen)
 			bufferlen = (int) len ;
@@ -670,7 +672,7 @@ host_read_d	(SF_PRIVATE *psf, double *ptr, sf_count_t len)
 		len -= bufferlen ;
 		} ;
 
-	return total ;
+	return readcount ;
 } /* host_read_d */
 
 static sf_count_t
